@@ -321,8 +321,11 @@ pub struct XlsbBook {
     pub strings: Vec<String>,
     /// numFmtId of each cell XF (index = iStyleRef); empty = one General XF
     pub xfs: Vec<u16>,
-    /// custom number formats (id, code) written in BrtBeginFmts
+    /// custom number formats (id, code) written in BrtBeginFmts, in this order
     pub custom_fmts: Vec<(u16, String)>,
+    /// numFmtId of each *style* XF (BrtBeginCellStyleXFs, written before the cell XFs);
+    /// empty = one General style XF
+    pub style_xfs: Vec<u16>,
     pub is_1904: bool,
     /// records written after BrtEndBundleShs and before BrtEndBook (BrtExternSheet, BrtName ..)
     pub extra_workbook: Vec<Rec>,
@@ -384,8 +387,14 @@ impl XlsbBook {
         r.push(Rec::new(0x0265, cnt(1))); // borders
         r.push(Rec::new(0x002E, unhex("000000010000000000000000000100000000000000000001000000000000000000010000000000000000000100000000000000")));
         r.push(Rec::new(0x0266, vec![]));
-        r.push(Rec::new(0x0272, cnt(1))); // cellStyleXfs
-        r.push(Rec::new(0x002F, unhex("ffff0000000000000000000010100000")));
+        let sxfs: Vec<u16> = if self.style_xfs.is_empty() { vec![0] } else { self.style_xfs.clone() };
+        r.push(Rec::new(0x0272, cnt(sxfs.len() as u32))); // cellStyleXfs
+        for f in &sxfs {
+            let mut p = 0xFFFFu16.to_le_bytes().to_vec();
+            p.extend_from_slice(&f.to_le_bytes());
+            p.extend_from_slice(&unhex("000000000000000010100000"));
+            r.push(Rec::new(0x002F, p));
+        }
         r.push(Rec::new(0x0273, vec![]));
         let xfs: Vec<u16> = if self.xfs.is_empty() { vec![0] } else { self.xfs.clone() };
         r.push(Rec::new(0x0269, cnt(xfs.len() as u32))); // BrtBeginCellXFs
@@ -478,7 +487,7 @@ pub fn cellval_from_token(t: &Value) -> CellVal {
 }
 
 /// record tokens of the cell table -> records, plus the BrtWsDim bounding box of the cell records
-///   {"t":"row","r":n}  {"t":"cell","c":n,"v":value}  {"t":"ign","id":n,"len":n[,"lb":bytes]}
+///   {"t":"row","r":n}  {"t":"cell","c":n,"v":value[,"s":iStyleRef]}  {"t":"ign","id":n,"len":n[,"lb":bytes]}
 pub fn body_from_tokens(toks: &[Value]) -> (Vec<Rec>, (u32, u32, u32, u32)) {
     let mut recs = Vec::with_capacity(toks.len());
     let (mut r0, mut r1, mut c0, mut c1) = (u32::MAX, 0u32, u32::MAX, 0u32);
@@ -491,7 +500,8 @@ pub fn body_from_tokens(toks: &[Value]) -> (Vec<Rec>, (u32, u32, u32, u32)) {
             }
             "cell" => {
                 let c = t["c"].as_u64().unwrap() as u32;
-                recs.push(cell_record(c, 0, &cellval_from_token(&t["v"]), &PTG_INT_1));
+                let style = t["s"].as_u64().unwrap_or(0) as u32; // iStyleRef
+                recs.push(cell_record(c, style, &cellval_from_token(&t["v"]), &PTG_INT_1));
                 r0 = r0.min(row);
                 r1 = r1.max(row);
                 c0 = c0.min(c);
